@@ -73,8 +73,14 @@ impl ZvtSerializer for feig::packets::WriteFile {
 
 // ---- the payload directory as the exchange sees it: id -> path, path -> content (A2: regular files, no short reads) ----
 #[verifier::external_body]
-pub struct VFiles { _p: u8 }
-impl VFiles {
+#[verifier::accept_recursive_types(K)]
+#[verifier::accept_recursive_types(V)]
+pub struct HashMap<K, V> { _p: core::marker::PhantomData<(K, V)> }
+/// the one instance the upload uses: file id -> path (T5)
+pub type VFiles = HashMap<u8, String>;
+/// N11 writes `HashMap::new()` as `VMap::new()`
+pub type VMap = HashMap<u8, String>;
+impl HashMap<u8, String> {
     /// announced files: id -> path text
     pub uninterp spec fn paths(&self) -> Map<u8, Seq<char>>;
     #[verifier::external_body]
@@ -96,13 +102,66 @@ impl VFiles {
     { unimplemented!() }
     #[verifier::external_body]
     pub fn len(&self) -> (r: usize) ensures self.paths().dom().finite(), r == self.paths().dom().len() { unimplemented!() }
+    #[verifier::external_body]
+    pub fn new() -> (r: Self) ensures r.paths() == Map::<u8, Seq<char>>::empty() { unimplemented!() }
+    #[verifier::external_body]
+    pub fn insert(&mut self, k: u8, v: String) -> (r: Option<String>) ensures final(self).paths() == old(self).paths().insert(k, v@) { unimplemented!() }
+    #[verifier::external_body]
+    pub fn is_empty(&self) -> (r: bool) ensures r <==> self.paths() =~= Map::<u8, Seq<char>>::empty() { unimplemented!() }
+}
+// ---- std::path as far as convert_dir uses it: a path is its text; the file system answers `exists` (A2: unchanged meanwhile)
+pub uninterp spec fn path_join(dir: Seq<char>, rel: Seq<char>) -> Seq<char>;
+pub uninterp spec fn fs_exists(path: Seq<char>) -> bool;
+/// the path is valid Unicode (`OsString::into_string` succeeds exactly then)
+pub uninterp spec fn path_utf8(path: Seq<char>) -> bool;
+#[verifier::external_body]
+pub struct Path { _p: u8 }
+#[verifier::external_body]
+#[derive(Debug)]
+pub struct OsString { _p: u8 }
+impl Path {
+    pub uninterp spec fn text(&self) -> Seq<char>;
+    #[verifier::external_body]
+    pub fn new(s: &str) -> (r: &Path) ensures r.text() == s@, path_utf8(s@) { unimplemented!() }
+    /// `Path::join`: joining Unicode paths gives a Unicode path
+    #[verifier::external_body]
+    pub fn join(&self, rel: &Path) -> (r: PathBuf)
+        ensures r.text() == path_join(self.text(), rel.text()), (path_utf8(self.text()) && path_utf8(rel.text())) ==> path_utf8(r.text()),
+    { unimplemented!() }
+}
+impl PathBuf {
+    pub uninterp spec fn text(&self) -> Seq<char>;
+    #[verifier::external_body]
+    pub fn exists(&self) -> (r: bool) ensures r == fs_exists(self.text()) { unimplemented!() }
+    #[verifier::external_body]
+    pub fn into_os_string(self) -> (r: OsString) ensures r.text() == self.text() { unimplemented!() }
+    /// `&PathBuf` -> `&Path` (Deref)
+    #[verifier::external_body]
+    pub fn as_path(&self) -> (r: &Path) ensures r.text() == self.text() { unimplemented!() }
+}
+impl OsString {
+    pub uninterp spec fn text(&self) -> Seq<char>;
+    #[verifier::external_body]
+    pub fn into_string(self) -> (r: core::result::Result<String, OsString>)
+        ensures path_utf8(self.text()) <==> r is Ok, r matches Ok(s) ==> s@ == self.text(),
+    { unimplemented!() }
 }
 #[verifier::external_body]
 pub struct PathBuf { _p: u8 }
 /// bytes of the file at a path (the disk is not modified during the upload)
 pub uninterp spec fn disk(path: Seq<char>) -> Seq<u8>;
 pub mod std {
-pub mod io { pub enum SeekFrom { Start(u64), End(i64), Current(i64) } pub trait Read {} pub trait Seek {} }
+pub mod io {
+    use vstd::prelude::*;
+    pub enum SeekFrom { Start(u64), End(i64), Current(i64) } pub trait Read {} pub trait Seek {}
+    pub enum ErrorKind { InvalidData, NotFound, Other }
+    /// std::io::Error as far as it is constructed here
+    pub struct Error { pub kind: ErrorKind }
+    impl Error {
+        pub fn new(kind: ErrorKind, _msg: &str) -> (r: Error) ensures r.kind == kind { Error { kind } }
+    }
+    impl crate::IntoVErr for Error { open spec fn as_verr(self) -> crate::VErr { crate::VErr::Io } fn into_verr(self) -> (r: crate::VErr) { crate::VErr::Io } }
+}
 pub mod os { pub mod unix { pub mod fs { pub trait FileExt {} } } }
 pub mod fs {
     use vstd::prelude::*;
